@@ -5,6 +5,8 @@
 // Header lines of the script (ignored here except `table`): `env ...`, `table <key> <text> <comment> <preedit>`
 #include "hcommon.h"
 #include <map>
+#include <chrono>
+#include <thread>
 #include <sstream>
 #include <iostream>
 #include <rime/candidate.h>
@@ -43,6 +45,8 @@ class VtTranslator : public rime::Translator {
 };
 
 static RimeApi* api;
+
+static bool g_stall = false;   // set for one observation: see the `key` op
 
 static void observe(RimeSessionId s, int ret, const std::string& text) {
   std::ostringstream o;
@@ -117,11 +121,17 @@ static void observe(RimeSessionId s, int ret, const std::string& text) {
           if (g.HasTag("punct_number")) t += "d";   // never set in the modelled schemas (digit separators off)
           o << g.start << "-" << g.end << "-" << g.length << "-" << (int)g.status << "-" << g.selected_index << "-" << (t.empty() ? "0" : t);
         }
+        // the options the modelled components read or the key binder's option actions write (driver: reportedOptions)
+        static const char* kOpts[] = {"ascii_mode", "full_shape", "ascii_punct", "soft_cursor", "_linear", "_vertical", "_horizontal",
+                                      "opt_a", "opt_b", "opt_c", "@9"};
+        o << " opts=";
+        for (const char* n : kOpts) o << (sess->context()->get_option(n) ? "1" : "0");
       }
     }
   } else {
     o << " nocontext";
   }
+  if (g_stall) { o << " stall=1"; g_stall = false; }
   puts(o.str().c_str());
 }
 
@@ -144,6 +154,11 @@ int main(int argc, char** argv) {
   std::vector<RimeSessionId> sessions;
   std::vector<bool> alive;
   RimeSessionId cur = 0;
+  // AsciiComposer toggles ascii_mode when Shift / Control is released within 500 ms of being pressed (steady_clock).  The
+  // model's clock is moved by `sleep` ops only; a Shift / Control release that comes >= 450 ms after the (first) press without
+  // a `sleep` in between means the process was stalled: the observation is marked `stall=1` and the check sets the history aside.
+  using Clock = std::chrono::steady_clock;
+  Clock::time_point t_press; bool press_pending = false, slept = false;
   for (auto& l : lines) {
     std::istringstream is(l);
     std::string w; is >> w;
@@ -171,7 +186,17 @@ int main(int argc, char** argv) {
     else if (w == "cleanup_all") { api->cleanup_all_sessions(); for (size_t k = 0; k < alive.size(); ++k) alive[k] = false; }
     else if (w == "destroy") { size_t k; is >> k; ret = k < sessions.size() ? api->destroy_session(sessions[k]) : 0; if (k < alive.size() && ret) alive[k] = false; }
     else if (w == "schema") { std::string id; is >> id; ret = api->select_schema(cur, id.c_str()); }
-    else if (w == "key") { long code, mask; is >> code >> mask; ret = api->process_key(cur, (int)code, (int)mask); }
+    else if (w == "sleep") { long ms; is >> ms; std::this_thread::sleep_for(std::chrono::milliseconds(ms)); slept = true; }
+    else if (w == "key") {
+      long code, mask; is >> code >> mask;
+      bool modkey = code >= 0xffe1 && code <= 0xffe4, release = (mask & (1L << 30)) != 0;
+      if (modkey && !release && !press_pending) { t_press = Clock::now(); press_pending = true; slept = false; }
+      ret = api->process_key(cur, (int)code, (int)mask);
+      if (modkey && release && press_pending) {
+        if (!slept && Clock::now() - t_press >= std::chrono::milliseconds(450)) g_stall = true;
+        press_pending = false;
+      }
+    }
     else if (w == "select") { size_t i; is >> i; ret = api->select_candidate(cur, i); }
     else if (w == "select_page") { size_t i; is >> i; ret = api->select_candidate_on_current_page(cur, i); }
     else if (w == "highlight") { size_t i; is >> i; ret = api->highlight_candidate(cur, i); }
